@@ -91,13 +91,19 @@ func (t *fnTrans) call(c *ssa.CallCommon, res ssa.Value, pos token.Pos) Val {
 	if r, ok := t.modelCall(key, fn, args, argTys, resTy, pos); ok {
 		return r
 	}
+	// an extern scoped to the caller's package (`extern[in pkg]`) is the contract assumed there, even when
+	// the callee has a verified contract of its own (which may be weaker, e.g. without a frame)
+	if fc, ok := t.eng.contracts.Externs[key+"@"+t.callerPkgPath()]; ok {
+		t.usedExterns[key+"@"+t.callerPkgPath()] = true
+		return t.applyContract(fc, key, c.Signature(), fn, args, argTys, resTy, pos)
+	}
 	if fn != nil {
 		if fc := t.eng.contractOf(fn); fc != nil {
 			return t.applyContract(fc, key, fn.Signature, fn, args, argTys, resTy, pos)
 		}
 	}
-	if fc, ok := t.eng.contracts.Externs[key]; ok {
-		t.usedExterns[key] = true
+	if fc, mk := t.eng.contracts.lookupExtern(key, t.callerPkgPath()); fc != nil {
+		t.usedExterns[mk] = true
 		return t.applyContract(fc, key, c.Signature(), fn, args, argTys, resTy, pos)
 	}
 	if t.eng.isBenign(key) {
@@ -666,9 +672,14 @@ func (t *fnTrans) resolveMod(item string, env *Env) []modTarget {
 			out := []modTarget{{name: t.ghostVar(g, env.pkgOf(g.Pkg)).Name}}
 			for _, grp := range t.eng.contracts.GhostGroups {
 				in := false
-				for _, n := range grp {
-					if n == x.Name {
-						in = true
+				if len(grp) > 1 && grp[0] == "<lead>" {
+					in = grp[1] == x.Name
+					grp = grp[1:]
+				} else {
+					for _, n := range grp {
+						if n == x.Name {
+							in = true
+						}
 					}
 				}
 				if !in {
@@ -964,6 +975,20 @@ func (t *fnTrans) applyContract(fc *FuncContract, key string, sig *types.Signatu
 		na := t.fresh("alloc_c", "Int")
 		t.assume(fmt.Sprintf("(>= %s %s)", na, t.get(t.cur, "alloc")))
 		t.set("alloc", na)
+		if !fc.Extern && !fc.Trusted {
+			// free ghosts are outside every frame: unknown after a call of a verified repository function
+			// unless it says `keeps` (the callee's ensures / onreturn clauses may say more); a trusted
+			// contract's `modifies` is taken as complete for them as well
+			for _, name := range sortedKeys(t.vars) {
+				if sv := t.vars[name]; sv.Free && !t.keepsGhost(fc, name) {
+					nv := t.fresh(name+"_fg", sv.Sort)
+					if sv.Typ != nil {
+						t.assume(t.wf(nv, sv.Typ))
+					}
+					t.set(name, nv)
+				}
+			}
+		}
 		if !fc.NoChan && !fc.Extern {
 			// a repository function may send / receive: channel counters are unknown afterwards
 			// unless its contract says `nochan` (or lists chanstore(T) and constrains them in ensures)
@@ -1080,7 +1105,7 @@ func (t *fnTrans) spawn(in *ssa.Go) {
 		fc = t.eng.contractOf(fn)
 	}
 	if fc == nil {
-		fc = t.eng.contracts.Externs[key]
+		fc, _ = t.eng.contracts.lookupExtern(key, t.callerPkgPath())
 	}
 	if fc == nil || len(fc.OnSpawn) == 0 {
 		return
@@ -1150,4 +1175,15 @@ func (t *fnTrans) applyGhostSets(sets []*GhostSet, post *Env) {
 		t.define(fmt.Sprintf("(= %s %s)", r, nv))
 		t.set(sv.Name, r)
 	}
+}
+
+func (t *fnTrans) callerPkgPath() string {
+	f := t.fn
+	for f != nil && f.Pkg == nil && f.Parent() != nil {
+		f = f.Parent()
+	}
+	if f != nil && f.Pkg != nil {
+		return f.Pkg.Pkg.Path()
+	}
+	return ""
 }
